@@ -171,6 +171,13 @@ def check_c17(ctx):
     ctx.cov["distinct_nontrivial"] = distinct
     if behs:
         ctx.sample({"behaviour_actions": [s["act"] for s in behs[0][1:]][-12:], "final_wpc": behs[0][-1]["wpc"]})
+    # operator level: Shutdown in the middle of a run of the real operator (queues idle, in a handler, events and ticks
+    # still arriving): no execution may start afterwards
+    import op
+    n, st = op.e2e(ctx, ("C17/",), ["A", "D"], ctx.pick(30, 300), depth=45, sdafter=ctx.pick(11, 10))
+    ctx.log("operator level: %d behaviours with Shutdown replayed on the real operator: %s" % (n, st))
+    ctx.cov["traces_validated_against_impl"] += n
+    ctx.cov["operator_level"] = st
     ctx.assumptions += ["'picked' is linearised at the last context check before the task is returned by waitForTask",
                         "when Stop and the wait-loop ticker are both ready the harness lets Go's select choose; the step is repeated over many behaviours"]
     vlib.finish(ctx, rule="behaviours containing Stop from TLC simulation of spec/TaskQueue, replayed gate by gate on the real worker goroutine; "
